@@ -497,7 +497,7 @@ Inductive kind := KNil | KBool | KNum | KStr | KRange | KTuple | KVec | KFn.
 Definition kind_of (v : val) : kind :=
   match v with
   | VNil => KNil | VBool _ => KBool | VNum _ => KNum | VStr _ => KStr
-  | VRange _ _ => KRange | VTuple _ _ => KTuple | VVecRef _ => KVec | VPrint => KFn
+  | VRange _ _ => KRange | VTuple _ _ => KTuple | VVecRef _ => KVec | VPrint | VClosure _ _ => KFn
   end.
 
 Definition three_kinds {A} (r : res A) : Prop :=
@@ -513,9 +513,9 @@ Proof. intros op a. destruct op, a; exact I. Qed.
 Lemma range_total : forall w a b, three_kinds (range_sem w a b).
 Proof.
   intros w a b. unfold range_sem, validate_integer.
-  destruct b as [| | y | | | | |]; try exact I.
+  destruct b as [| | y | | | | | |]; try exact I.
   destruct (is_integral y); [|exact I].
-  destruct a as [| | x | | | | |]; try exact I.
+  destruct a as [| | x | | | | | |]; try exact I.
   destruct (is_integral x); exact I.
 Qed.
 Lemma call_total : forall w f args, three_kinds (call_sem w f args).
@@ -549,7 +549,7 @@ Qed.
 Lemma three_kinds_bounded_index : forall w v bound kd, three_kinds (bounded_index w v bound kd).
 Proof.
   intros. unfold bounded_index, validate_integer.
-  destruct v as [| | x | | | | |]; try exact I.
+  destruct v as [| | x | | | | | |]; try exact I.
   destruct (is_integral x); [|exact I].
   match goal with |- context [if ?c then _ else _] => destruct c end; exact I.
 Qed.
